@@ -19,6 +19,7 @@ type REdge struct {
 	S   string
 	T   string
 	A   PAction
+	Raw json.RawMessage // the action record as printed
 	SSt *PState
 	TSt *PState
 }
@@ -58,7 +59,7 @@ func LoadGraph(printed []string) (*Graph, error) {
 		return p, nil
 	}
 	for _, e := range raw {
-		re := &REdge{S: e.S, T: e.T, Key: e.S + "|" + string(e.A) + "|" + e.T}
+		re := &REdge{S: e.S, T: e.T, Key: e.S + "|" + string(e.A) + "|" + e.T, Raw: e.A}
 		if err := json.Unmarshal(e.A, &re.A); err != nil {
 			return nil, fmt.Errorf("action: %v: %.200s", err, e.A)
 		}
@@ -404,12 +405,20 @@ func ReplayObject(r *StepResult) map[string]any {
 			}
 		}
 	}
-	return map[string]any{"init": json.RawMessage(r.Init), "path": PathString(r.Path), "actions": acts, "seed": r.Conc.Seed, "files_after": files}
+	edges := []map[string]json.RawMessage{}
+	for _, e := range r.Path {
+		edges = append(edges, map[string]json.RawMessage{"s": json.RawMessage(e.S), "a": e.Raw, "t": json.RawMessage(e.T)})
+	}
+	return map[string]any{"init": json.RawMessage(r.Init), "path": PathString(r.Path), "actions": acts, "edges": edges,
+		"seed": r.Conc.Seed, "pairs": r.Conc.Pairs, "files": r.Conc.Files, "files_after": files}
 }
 
 // SampleTries picks n Generate edges at random (seeded) among all edges
 // reachable from the initial states and returns, per initial state, the
 // prefix tree of the BFS-shortest histories that end with them.
+//
+// Stratified: one edge per class (resolver/exec layout, edits since the last
+// run, deviations firing) first, in seeded order, then uniformly at random.
 func (g *Graph) SampleTries(n int, seed int64) (map[string]*Trie, int) {
 	type cand struct {
 		init string
@@ -457,6 +466,26 @@ func (g *Graph) SampleTries(n int, seed int64) (map[string]*Trie, int) {
 	if n > len(cands) {
 		n = len(cands)
 	}
+	// stratify: stable partition putting the first edge of every class in front
+	classOf := func(c cand) string {
+		st := c.e.SSt
+		return st.Cfg.Rl + "/" + st.Cfg.El + "|" + st.Dirty + "|" + strings.Join(c.e.A.Devs, ",")
+	}
+	seenClass := map[string]bool{}
+	var front, back []cand
+	for _, c := range cands {
+		if k := classOf(c); !seenClass[k] {
+			seenClass[k] = true
+			front = append(front, c)
+		} else {
+			back = append(back, c)
+		}
+	}
+	// the classes on which the stale-file deviation fires need the longest histories and are rare: first
+	sort.SliceStable(front, func(i, j int) bool {
+		return strings.Contains(classOf(front[i]), "staleFile") && !strings.Contains(classOf(front[j]), "staleFile")
+	})
+	cands = append(front, back...)
 	out := map[string]*Trie{}
 	for _, c := range cands[:n] {
 		var rev []*REdge
